@@ -153,7 +153,17 @@ pub fn run_history(base: &Path, h: &History, prop: Prop) -> Result<Stats, Fail> 
                 st.panics += 1;
                 st.outcomes.push("panic".into());
                 st.labels.push("compiler-panic(not judged here)".into());
-                st.labels.push(format!("panic: {}", crate::world::tail(p, 80)));
+                // never put raw panic text into a label: it contains scratch paths and thread ids
+                st.labels.push(
+                    if p.contains("Unable to canonicalize schema path") {
+                        "panic:create_config(schema file missing)"
+                    } else if p.contains("create_config") {
+                        "panic:create_config(other)"
+                    } else {
+                        "panic:other(C08's subject)"
+                    }
+                    .to_string(),
+                );
                 clean = false;
             }
             Outcome::Faulted(_) => {
@@ -234,7 +244,8 @@ pub fn run_history(base: &Path, h: &History, prop: Prop) -> Result<Stats, Fail> 
                     Ok(e) => e,
                     Err(e) => {
                         // cannot happen for a compile that succeeded; harness trouble, not a verdict
-                        st.labels.push(format!("expected-artifacts-unavailable: {}", crate::world::tail(&e, 60)));
+                        let _ = e;
+                        st.labels.push("expected-artifacts-unavailable".to_string());
                         clean = false;
                         continue;
                     }
